@@ -400,11 +400,11 @@ impl<S3, NI> MultiLane<[u64; 2]> for u64x2_sse2<S3, NoS4, NI> {
 impl<S3, S4, NI> MultiLane<[u128; 1]> for u128x1_sse2<S3, S4, NI> {
     #[inline(always)]
     fn to_lanes(self) -> [u128; 1] {
-        unimplemented!()
+        unsafe { vec128_storage { sse2: self.x }.u128x1 }
     }
     #[inline(always)]
     fn from_lanes(xs: [u128; 1]) -> Self {
-        unimplemented!("{:?}", xs)
+        Self::new(unsafe { vec128_storage { u128x1: xs }.sse2 })
     }
 }
 
